@@ -53,14 +53,6 @@ theorem colData_le_body (deps : List Bytes) (actor : Bytes) (others : List Bytes
   simp only [List.length_append]
   omega
 
-/-- a commit message: absent, or a non-empty valid UTF-8 string (an empty message reads back as none) -/
-def MsgWF : Option Bytes → Prop
-  | none => True
-  | some m => m ≠ [] ∧ validUtf8 m = true ∧ m.length < 2 ^ 64
-
-instance (m : Option Bytes) : Decidable (MsgWF m) := by
-  cases m <;> unfold MsgWF <;> infer_instance
-
 /-- **`Change::parse_following_header`** on the body the builder wrote -/
 theorem parseMeta_encode (deps : List Bytes) (actor : Bytes) (others : List Bytes) (seq startOp : Nat) (time : Int)
     (message : Option Bytes) (rows : List Row) (extra : Bytes) (layout : List Col) (oc : OpCols)
